@@ -1350,7 +1350,7 @@ func RunShutdownWithFreeSlotsCase(seed int64) *HistResult {
 	sd := make(chan struct{})
 	go func() { defer close(sd); _ = sys.Shutdown(5, ctx, "jobs wait next to free slots") }()
 	observed := false
-	for i := 0; i < 200000; i++ {
+	for deadline := time.Now().Add(5 * time.Second); time.Now().Before(deadline); {
 		if _, cls := sys.Schedule(8, "no-such-pipeline-probe", nil, "probe"); cls == "shutting-down" {
 			observed = true
 			break
@@ -1358,6 +1358,7 @@ func RunShutdownWithFreeSlotsCase(seed int64) *HistResult {
 		time.Sleep(50 * time.Microsecond)
 	}
 	if !observed {
+		// (a runner that does not refuse the probe while it shuts down: judged by the other scenarios, not here)
 		res.Inconclusive = "the shutdown was not observed to begin"
 		return res
 	}
